@@ -164,6 +164,15 @@ func gen(tier string) []proto.RTItem {
 			items = append(items, proto.RTItem{Scn: r, Class: fmt.Sprintf("cli/strings/protocol=%q,method=%q", pr, m)})
 		}
 	}
+	// (H) the pause between probes (library parameter), longer than the receive poll interval and than the timeout: the
+	// whole requested range is still probed when nobody answers
+	for _, k := range ks {
+		for _, d := range []int{150, 300, 1000} {
+			r := req(k, 1, 8, 33434, 0)
+			r.DelayMs = d
+			items = append(items, proto.RTItem{Scn: r, Class: fmt.Sprintf("RunTraceroute/%s-%s/send-delay=%dms", k.proto, k.method, d)})
+		}
+	}
 	// (G) requests that ask for runs AND end-to-end probes: each kind of run keeps its own TTL range
 	for _, k := range ks {
 		for _, entry := range []string{"RunTraceroute", "http", "cli"} {
